@@ -1,11 +1,11 @@
 use self::expression::expression;
 use self::statement::outer_statement;
 #[cfg(not(sylt_verif))]
-use std::collections::{BTreeMap, HashMap, HashSet};
+use std::collections::{BTreeMap, HashSet};
 #[cfg(sylt_verif)]
 use std::collections::BTreeMap;
 #[cfg(sylt_verif)]
-use sylt_common::verif_hash::{HashMap, HashSet};
+use sylt_common::verif_hash::HashSet;
 use std::fmt::{Debug, Display};
 use std::path::{Path, PathBuf};
 use sylt_common::error::Error;
